@@ -1,12 +1,15 @@
 import OnetVerif.Model.Util
 /-! Model of the tree store on its own (`treestorage.go`): every tree id has a slot (absent, requested =
-key present with a nil tree, present) and possibly a scheduled removal (`cancellations[id]`).  The model
-of C11 (`Model/C11.lean`) follows ONE tree id; this file models the store for ALL ids at once and
-`Props/C11.lean` proves that each id's slot evolves as if it were alone (`C11.Store.independent`).
+key present with a nil tree, present) and possibly a scheduled removal (`cancellations[id]`, a channel:
+modelled by a generation number, fresh per `Remove`).  A removal routine whose timer has fired waits for
+the store's lock before it deletes (`firing`); meanwhile the removal can be cancelled and even scheduled
+again.  The model of C11 (`Model/C11.lean`) follows ONE tree id and treats expiry as one step; this file
+models the store for ALL ids at once, with the two-step expiry, and `Props/C11.lean` proves that each id's
+slot evolves as if it were alone (`C11.Store.independent`) and that a cancelled removal deletes nothing.
 
 Anchors: `Register`, `Unregister`, `IsRegistered`, `IsRequested`, `Get`, `getAndRefresh`, `Set`,
-`Remove` (and its timer goroutine: environment action `fire`), `GetRoster`, `Close`, `cancelDeletion`.
-Core-only. -/
+`Remove` and its timer goroutine (environment actions `timer`, `reap`), `GetRoster`, `Close`,
+`cancelDeletion`.  Core-only. -/
 namespace C11.Store
 
 inductive Slot where
@@ -15,51 +18,27 @@ inductive Slot where
   | present (copy : Nat) -- `trees[id] = t` (which of several equal trees with that id)
   deriving DecidableEq, Repr
 
-structure St where
-  slot : Nat → Slot := fun _ => .absent
-  armed : Nat → Bool := fun _ => false     -- `cancellations[id]` exists
-  closed : Bool := false
-
-inductive Op where
-  | register (id : Nat)
-  | unregister (id : Nat)
-  | refresh (id : Nat)          -- `getAndRefresh`
-  | set (id copy : Nat)
-  | remove (id : Nat)
-  | fire (id : Nat)             -- the timer of a scheduled removal fires
-  | close
-  deriving Repr
-
-def upd {α : Type} (f : Nat → α) (i : Nat) (x : α) : Nat → α := fun j => if j = i then x else f j
-
-def step (s : St) : Op → St
-  | .register id => match s.slot id with
-      | .absent => { s with slot := upd s.slot id .requested }
-      | _ => s
-  | .unregister id => match s.slot id with
-      | .requested => { s with slot := upd s.slot id .absent }
-      | _ => s
-  | .refresh id => { s with armed := upd s.armed id false }
-  | .set id c => { s with armed := upd s.armed id false, slot := upd s.slot id (.present c) }
-  | .remove id => if s.closed then s else { s with armed := upd s.armed id true }
-  | .fire id => if s.armed id then { s with slot := upd s.slot id .absent, armed := upd s.armed id false } else s
-  | .close => { s with closed := true, armed := fun _ => false }
-
-def run (s : St) : List Op → St
-  | [] => s
-  | o :: os => run (step s o) os
-
-/-! the store as one id sees it -/
+/-- the store as one tree id sees it -/
 structure St1 where
   slot : Slot := .absent
-  armed : Bool := false
+  armed : Option Nat := none   -- `cancellations[id]`: generation of the scheduled removal
+  gen : Nat := 0               -- generations handed out so far
+  firing : List Nat := []      -- removal routines of this id whose timer fired, waiting for the lock
   closed : Bool := false
   deriving DecidableEq, Repr
 
 inductive Op1 where
-  | register | unregister | refresh | set (copy : Nat) | remove | fire | close
-  deriving Repr
+  | register | unregister
+  | refresh                    -- `getAndRefresh`
+  | set (copy : Nat)
+  | remove
+  | timer                      -- the timer of the scheduled removal fires (the routine now wants the lock)
+  | reap (g : Nat)             -- the routine of generation g gets the lock
+  | close
+  deriving DecidableEq, Repr
 
+/-- `reapDeletes armed g`: what the routine of generation g does once it holds the lock.  The code
+compares the channel it was started with against the one registered now. -/
 def step1 (s : St1) : Op1 → St1
   | .register => match s.slot with
       | .absent => { s with slot := .requested }
@@ -67,32 +46,70 @@ def step1 (s : St1) : Op1 → St1
   | .unregister => match s.slot with
       | .requested => { s with slot := .absent }
       | _ => s
-  | .refresh => { s with armed := false }
-  | .set c => { s with armed := false, slot := .present c }
-  | .remove => if s.closed then s else { s with armed := true }
-  | .fire => if s.armed then { s with slot := .absent, armed := false } else s
-  | .close => { s with closed := true, armed := false }
+  | .refresh => { s with armed := none }
+  | .set c => { s with armed := none, slot := .present c }
+  | .remove =>
+      if s.closed then s
+      else match s.armed with
+        | some _ => s                                     -- already planned
+        | none => { s with armed := some s.gen, gen := s.gen + 1 }
+  | .timer => match s.armed with
+      | some g => if g ∈ s.firing then s else { s with firing := s.firing ++ [g] }
+      | none => s
+  | .reap g =>
+      if g ∈ s.firing then
+        let s' := { s with firing := s.firing.filter (· != g) }
+        if s.armed = some g then { s' with slot := .absent, armed := none } else s'
+      else s
+  | .close => { s with closed := true, armed := none }
+
+/-- the routine as it was before the repair 2e39a89: it deletes without looking -/
+def step1Old (s : St1) : Op1 → St1
+  | .reap g =>
+      if g ∈ s.firing then
+        { s with firing := s.firing.filter (· != g), slot := .absent, armed := none }
+      else s
+  | o => step1 s o
 
 def run1 (s : St1) : List Op1 → St1
   | [] => s
   | o :: os => run1 (step1 s o) os
 
-def proj (s : St) (id : Nat) : St1 := { slot := s.slot id, armed := s.armed id, closed := s.closed }
+def run1Old (s : St1) : List Op1 → St1
+  | [] => s
+  | o :: os => run1Old (step1Old s o) os
+
+/-! the whole store: one `St1` per id, sharing `closed` -/
+structure St where
+  at_ : Nat → St1 := fun _ => {}
+  closed : Bool := false
+
+inductive Op where
+  | on (id : Nat) (o : Op1)     -- any operation but `close`, on one id
+  | close
+  deriving Repr
+
+def upd (f : Nat → St1) (i : Nat) (x : St1) : Nat → St1 := fun j => if j = i then x else f j
+
+def step (s : St) : Op → St
+  | .on id o => match o with
+      | .close => s                                          -- not an operation on one id
+      | o => { s with at_ := upd s.at_ id (step1 (s.at_ id) o) }
+  | .close => { at_ := fun j => step1 (s.at_ j) .close, closed := true }
+
+def run (s : St) : List Op → St
+  | [] => s
+  | o :: os => run (step s o) os
 
 /-- what id `id` sees of an operation: its own operations and `close`; nothing of the others -/
 def restrict (id : Nat) : Op → Option Op1
-  | .register j => if j = id then some .register else none
-  | .unregister j => if j = id then some .unregister else none
-  | .refresh j => if j = id then some .refresh else none
-  | .set j c => if j = id then some (.set c) else none
-  | .remove j => if j = id then some .remove else none
-  | .fire j => if j = id then some .fire else none
+  | .on j o => if j = id ∧ o ≠ .close then some o else none
   | .close => some .close
 
 /-! read operations -/
-def get (s : St) (id : Nat) : Option Nat := match s.slot id with | .present c => some c | _ => none
-def isRegistered (s : St) (id : Nat) : Bool := s.slot id != .absent
-def isRequested (s : St) (id : Nat) : Bool := s.slot id == .requested
+def get (s : St1) : Option Nat := match s.slot with | .present c => some c | _ => none
+def isRegistered (s : St1) : Bool := s.slot != .absent
+def isRequested (s : St1) : Bool := s.slot == .requested
 
 namespace Drv
 
@@ -101,57 +118,88 @@ def nIds : Nat := 6
 
 structure State where
   s : St := {}
+  /-- ids whose removal routines are held before the lock (`timer k` … `reap k`) -/
+  held : List Nat := []
 
 def init : State := {}
 
 def showSlot (s : St) (id : Nat) : String :=
-  (match s.slot id with
-   | .absent => "-" | .requested => "R" | .present c => s!"P{c}") ++ (if s.armed id then "+a" else "")
+  let t := s.at_ id
+  (match t.slot with
+   | .absent => "-" | .requested => "R" | .present c => s!"P{c}") ++ (if t.armed.isSome then "+a" else "")
 
 def obs (s : St) : String :=
   " ".intercalate ((List.range nIds).map (showSlot s)) ++ (if s.closed then " closed" else "")
 
-def showGet (s : St) (id : Nat) : String := match get s id with | some c => s!"tree{c}" | none => "nil"
+def showGet (s : St) (id : Nat) : String := match get (s.at_ id) with | some c => s!"tree{c}" | none => "nil"
+
+/-- every routine of id k whose timer fired gets the lock -/
+def reapAll (s : St) (k : Nat) : St :=
+  (s.at_ k).firing.foldl (fun acc g => Store.step acc (.on k (.reap g))) s
+
+/-- the removal of id j, if scheduled, fires and completes (nothing holds its routine) -/
+def expire (s : St) (j : Nat) : St :=
+  match (s.at_ j).armed with
+  | some g => Store.step (Store.step s (.on j .timer)) (.on j (.reap g))
+  | none => s
 
 /-- ops: `reg k`, `unreg k`, `isreg k`, `isreq k`, `get k`, `refresh k`, `set k c`, `remove k`,
-`roster r`, `wait` (longer than the time-out: every scheduled removal fires), `close`. -/
+`roster r`, `wait` (longer than the time-out: every scheduled removal fires and completes), `close`;
+`timer k` (time passes until every scheduled removal's timer has fired; the routines of id k and of
+the ids held already are held before the lock, the others complete) and `reap k` (the held routines
+of k go on). -/
 def step (st : State) (toks : List String) : State × String :=
   let x := st.s
   let idOf (k : String) : Option Nat := k.toNat?.bind fun k => if k < nIds then some k else none
   match toks with
   | ["reg", k] => match idOf k with
-    | some k => let y := Store.step x (.register k); ({ s := y }, obs y)
+    | some k => let y := Store.step x (.on k .register); ({ st with s := y }, obs y)
     | none => (st, "bad-op")
   | ["unreg", k] => match idOf k with
-    | some k => let y := Store.step x (.unregister k); ({ s := y }, obs y)
+    | some k => let y := Store.step x (.on k .unregister); ({ st with s := y }, obs y)
     | none => (st, "bad-op")
   | ["isreg", k] => match idOf k with
-    | some k => (st, s!"{isRegistered x k} {obs x}")
+    | some k => (st, s!"{isRegistered (x.at_ k)} {obs x}")
     | none => (st, "bad-op")
   | ["isreq", k] => match idOf k with
-    | some k => (st, s!"{isRequested x k} {obs x}")
+    | some k => (st, s!"{isRequested (x.at_ k)} {obs x}")
     | none => (st, "bad-op")
   | ["get", k] => match idOf k with
     | some k => (st, s!"{showGet x k} {obs x}")
     | none => (st, "bad-op")
   | ["refresh", k] => match idOf k with
-    | some k => let y := Store.step x (.refresh k); ({ s := y }, s!"{showGet y k} {obs y}")
+    | some k => let y := Store.step x (.on k .refresh); ({ st with s := y }, s!"{showGet y k} {obs y}")
     | none => (st, "bad-op")
   | ["set", k, c] => match idOf k, c.toNat? with
-    | some k, some c => let y := Store.step x (.set k c); ({ s := y }, obs y)
+    | some k, some c => let y := Store.step x (.on k (.set c)); ({ st with s := y }, obs y)
     | _, _ => (st, "bad-op")
   | ["remove", k] => match idOf k with
-    | some k => let y := Store.step x (.remove k); ({ s := y }, obs y)
+    | some k => let y := Store.step x (.on k .remove); ({ st with s := y }, obs y)
     | none => (st, "bad-op")
   | ["roster", r] => match r.toNat? with
     | some r =>
-      let found := (List.range nIds).any fun k => (get x k).isSome && k / 3 == r
+      let found := (List.range nIds).any fun k => (get (x.at_ k)).isSome && k / 3 == r
       (st, s!"{found} {obs x}")
     | none => (st, "bad-op")
+  | ["timer", k] => match idOf k with
+    | some k =>
+      if (x.at_ k).armed.isNone || st.held.contains k then (st, "disabled") else
+        let y := (List.range nIds).foldl (fun acc j =>
+          if j == k || st.held.contains j then Store.step acc (.on j .timer) else expire acc j) x
+        ({ s := y, held := st.held ++ [k] }, s!"fired {obs y}")
+    | none => (st, "bad-op")
+  | ["reap", k] => match idOf k with
+    | some k => if !st.held.contains k then (st, "disabled") else
+        let y := reapAll x k; ({ s := y, held := st.held.filter (· != k) }, obs y)
+    | none => (st, "bad-op")
   | ["wait"] =>
-    let y := (List.range nIds).foldl (fun acc k => Store.step acc (.fire k)) x
-    ({ s := y }, obs y)
-  | ["close"] => let y := Store.step x .close; ({ s := y }, obs y)
+    let y := (List.range nIds).foldl (fun acc k => reapAll (Store.step acc (.on k .timer)) k) x
+    ({ s := y, held := [] }, obs y)
+  -- `Close` waits for the removal routines: the held ones are let go (they find nothing to delete)
+  | ["close"] =>
+    let y := Store.step x .close
+    let y := (List.range nIds).foldl reapAll y
+    ({ s := y, held := [] }, obs y)
   | _ => (st, "bad-op")
 
 end Drv
